@@ -303,7 +303,9 @@ def c15(res, tier, deadline):
     res.assumptions = COMMON_ASSUMPTIONS
     if tier == "quick":
         sp = ("n=1-4,k=1,d=2,shapes=R|P|S|C|V|W|X;n=1-4,k=2,d=2,shapes=RR;"
-              "n=1-3,k=2,d=2,shapes=VV|RV|PP|VR|WV|XX|SR|RC")
+              "n=1-3,k=2,d=2,shapes=VV|RV|PP|VR|WV|XX|SR|RC;"
+              # five classes: withdrawing one keeps the size of the hash table
+              "n=5,k=1,d=1,shapes=R|V")
         runs = [Run("dbg", "unknown", sp, variant="assert"),
                 Run("dbg", "unknown", "n=1-3,k=1,d=2,shapes=R|V|S;n=1-3,k=2,d=1,shapes=RR|RV", variant="asan")]
     else:
